@@ -693,6 +693,14 @@ class ChangeOfValueServices(Capability):
         # request is to cancel the subscription
         cancel_subscription = (confirmed is None) and (lifetime is None)
 
+        # otherwise an absent lifetime is an indefinite subscription and
+        # absent 'issue confirmed notifications' means unconfirmed
+        if not cancel_subscription:
+            if lifetime is None:
+                lifetime = 0
+            if confirmed is None:
+                confirmed = False
+
         # find the object
         obj = self.get_object_id(obj_id)
         if _debug: ChangeOfValueServices._debug("    - object: %r", obj)
@@ -771,6 +779,14 @@ class ChangeOfValueServices(Capability):
 
         # request is to cancel the subscription
         cancel_subscription = (confirmed is None) and (lifetime is None)
+
+        # otherwise an absent lifetime is an indefinite subscription and
+        # absent 'issue confirmed notifications' means unconfirmed
+        if not cancel_subscription:
+            if lifetime is None:
+                lifetime = 0
+            if confirmed is None:
+                confirmed = False
 
         # find the object
         obj = self.get_object_id(obj_id)
